@@ -387,3 +387,37 @@ def coq_string(s):
 
 def shards(lst, n):
     return [lst[i:i + n] for i in range(0, len(lst), n)]
+
+
+class Hang(Exception):
+    """the implementation did not return within the time limit (a non-terminating loop in the code under test)"""
+
+
+class time_limit:
+    """`with time_limit(5): impl_call()` -- raises Hang in the main thread when the call takes longer (SIGALRM; a no-op
+    outside the main thread).  Generated cases are tiny: a call that needs seconds is a loop that does not terminate."""
+
+    hangs = 0            # after a few hangs the limit shrinks: the cases are tiny, a healthy call takes well under a millisecond
+
+    def __init__(self, seconds):
+        self.seconds = seconds if time_limit.hangs < 3 else min(seconds, 0.25)
+        self.armed = False
+
+    def __enter__(self):
+        import signal
+        import threading
+        if threading.current_thread() is threading.main_thread():
+            def on_alarm(signum, frame):
+                time_limit.hangs += 1
+                raise Hang("no return within %s s" % self.seconds)
+            self.old = signal.signal(signal.SIGALRM, on_alarm)
+            signal.setitimer(signal.ITIMER_REAL, self.seconds)
+            self.armed = True
+        return self
+
+    def __exit__(self, *a):
+        if self.armed:
+            import signal
+            signal.setitimer(signal.ITIMER_REAL, 0)
+            signal.signal(signal.SIGALRM, self.old)
+        return False
